@@ -453,6 +453,7 @@ R.contract(
         "space.ack_at == old(space.ack_at)",
     ],
     prop=["C12"],
+    frame=True,  # OPAQUE_CALL discharge: see contracts/quic_handlers.py
 )
 
 
